@@ -6,8 +6,7 @@ import Pyrtma.Proofs.ManagerSimOrigin
 `Spec.roundBody.go` — the Spec's loop over the frames of a round and the segments of the model's events — adds no C14
 entry: per frame the two clauses evaluated before `segment` return their argument (`checkNoticeOrigin`:
 `ManagerSimOrigin.lean`; `checkLoggerWaited`: `loggerWaited_ok`) and `segment` adds none (`segment_c14`).
-Not covered: the stretch before the first read of a round (`out/defect_2.md`: the C14 clause of `checkDepartures` is
-too strict there when a round accepts and reads nothing), hence no statement about a whole round.
+The stretch before the first read of a round, a whole round and a whole run: `ManagerSimOwedPre.lean`.
 -/
 namespace Pyrtma.Mgr
 open Spec
@@ -99,39 +98,7 @@ theorem readAll_go_c14 : ∀ (reads : List Read) (a : A) (s sQ : State) (E : Lis
 
 end loop
 
-/-! ## a whole round, for configurations that do not forward INFO log lines
-
-With `20 < cfg.logLevel` (the default is 100) the accept branch writes nothing: the stretch before the first read of a
-round is empty, or — when no frame is read — the periodic section alone, which runs after the poll (`out/defect_2.md`
-is about the accept log line). -/
-
-theorem preS_quiet {cfg : Cfg} (hlog : 20 < cfg.logLevel) (s : State) (r : Round) : (preS cfg s r).out = s.out := by
-  have hacc : (acceptStep cfg (envStep s r)).out = s.out := by
-    unfold acceptStep logAt
-    have : ¬ (20 ≥ cfg.logLevel) := by omega
-    simp only [this, if_false]
-    rfl
-  unfold preS
-  dsimp only
-  split
-  · show (if r.accept then acceptStep cfg (envStep s r) else envStep s r).out = s.out
-    split
-    · exact hacc
-    · rfl
-  · rfl
-
-theorem goStart_nil_c14 (cfg : Cfg) (aP : A) (wNew : List Nat) (hn : NoErr "C14" aP) :
-    NoErr "C14" (goStart cfg aP wNew []) := by
-  unfold goStart
-  have h1 : ErrExt ["C07"] aP (aP.chk ((closes ([] : List Ev)).isEmpty || !(wfails ([] : List Ev)).isEmpty) "C07"
-      "a connection was closed before any frame was read in this round") := errExt_chk _ _ _ _ _ (by simp)
-  generalize aP.chk ((closes ([] : List Ev)).isEmpty || !(wfails ([] : List Ev)).isEmpty) "C07"
-      "a connection was closed before any frame was read in this round" = X at h1
-  have h2 : checkNoticeOrigin cfg X none [] = X := rfl
-  rw [h2]
-  have h3 := checkDepartures_c14 cfg X none [] (fun o _ m _ => by simp [closes])
-  show NoErr "C14" (applyDepartures (checkDepartures cfg X none []) [])
-  exact noErr_applyDepartures [] (h3.noErr (by simp) (h1.noErr (by simp) hn))
+/-! ## the end of a round -/
 
 theorem roundEnd_c14 (cfg : Cfg) (a : A) (pre : List Ev) (segs : List (Nat × List Ev)) (hn : NoErr "C14" a) :
     NoErr "C14" (roundEnd cfg a pre segs) := by
@@ -142,172 +109,5 @@ theorem roundEnd_c14 (cfg : Cfg) (a : A) (pre : List Ev) (segs : List (Nat × Li
     · exact CoreExt.refl _ _
     · exact (coreExt_foldl [] _ (fun x y => noteMgrFrames_ext cfg x y) _ _).mono (by simp)
   exact (hb.trans (tail_ext cfg b lastEvs)).noErr (by simp) hn
-
-section round
-variable {cfg : Cfg} (ok : CfgOK cfg) (hfuel : cfg.fuel = 0) (hperm : OrdPerm cfg) (hmt : cfg.mtClosed ≠ cfg.allTypes)
-  (hlog : 20 < cfg.logLevel)
-include ok hfuel hperm hmt hlog
-
-/-- **One round adds no C14 entry** (log level above INFO) -/
-theorem round_c14 {a : A} {s : State} (inv : Inv cfg a s) (r : Round) (hwf : RoundWF r) (evs : List Ev)
-    (he : (step cfg s r).out = s.out ++ evs) (hn : NoErr "C14" a) : NoErr "C14" (Spec.round cfg a r evs) := by
-  have hord : OrdOK cfg := ordOK_of_perm hperm
-  have hall : OrdAll cfg := OrdAll_of_perm hperm
-  have tStep : T (step cfg s r) := step_T ok hmt hord hfuel inv.top inv.t r
-  have tPre : T (preS cfg s r) := pre_T ok hmt hord hfuel inv.top inv.t r
-  rw [round_eq]
-  rw [step_eq cfg s r inv.top.good.ok] at he tStep
-  obtain ⟨eAcc, hPout, hnoAcc, hsP, tP, jP, hreads, herrs⟩ := pre_ok ok hfuel inv r hwf
-  have hq0 := preS_quiet hlog s r
-  have heAcc : eAcc = [] := by
-    have : s.out ++ eAcc = s.out ++ [] := by rw [← hPout, hq0]; simp
-    exact List.append_cancel_left this
-  subst heAcc
-  rw [hreads]
-  have hwf' : ∀ rd ∈ readsS s r, rd.uid ≠ 0 := fun rd hrd => hwf rd (List.mem_filter.mp hrd).1
-  rw [preA_eq] at hsP herrs
-  have herrs' : (preAcc a r).errs = a.errs := herrs
-  have hnAcc : NoErr "C14" (preAcc a r) := by unfold NoErr; rw [herrs']; exact hn
-  have hreadsDef : readsS s r = r.reads.filter (fun rd => ((envStep s r).find rd.uid).isSome) := rfl
-  generalize hrs : readsS s r = reads at *
-  have hsPdef : preS cfg s r = preS cfg s r := rfl
-  generalize hsPe : preS cfg s r = sP at hPout hsP tP jP tPre he tStep hq0
-  have hdP : (sP.mods.map (·.uid)).Nodup := hsP.minv.distinct
-  have tR := top_readAll ok hfuel reads tP
-  have jR : J (readAll cfg reads sP) := readAll_J cfg reads jP
-  have dtK := dt_ticks ok hall hfuel tR
-  have q : QuietTo cfg (readAll cfg reads sP) (ticks cfg (readAll cfg reads sP)) :=
-    ⟨ticks_nest cfg _, top_ticks ok hfuel tR, ticks_J cfg jR, qa_ticks cfg _,
-      fun k => quiet_of_QE (ticks_QE cfg (tag_cp cfg k) (ctl_cp k) _),
-      ticks_info cfg _ ((readAll_usub cfg reads sP).nodup hdP), dtK.dep, tStep⟩
-  obtain ⟨E1, hE1⟩ := readAll_out ok hfuel reads sP tP
-  obtain ⟨E2, hE2, _, _⟩ := q.nest.ext
-  have hE : (ticks cfg (readAll cfg reads sP)).out = sP.out ++ (E1 ++ E2) := by rw [hE2, hE1, List.append_assoc]
-  have hevs : evs = E1 ++ E2 := by
-    have : s.out ++ evs = s.out ++ (E1 ++ E2) := by rw [← he, hE, hq0]
-    exact List.append_cancel_left this
-  obtain ⟨X0, hX0, hgs0⟩ := goStart_ext cfg (preAcc a r) (preW a r) []
-  have inv0 : Inv cfg (goStart cfg (preAcc a r) (preW a r) []) sP := by
-    rw [hgs0]; exact ⟨sim_coreExt hsP (Spec.applyDepartures_coreExt hX0 []), tP, jP, tPre⟩
-  have hn0 := goStart_nil_c14 cfg (preAcc a r) (preW a r) hnAcc
-  unfold roundRest
-  apply roundEnd_c14
-  rcases readAll_go ok hfuel hperm hmt reads (goStart cfg (preAcc a r) (preW a r) []) sP (ticks cfg (readAll cfg reads sP))
-      (E1 ++ E2) (reads.length + (Spec.splitRd (E1 ++ E2)).2.length + 1) inv0 hwf' (by omega) q hE with
-      ⟨hnoE, hid, hskip⟩ | ⟨hp1, hp2, _, _⟩
-  · -- no frame was read in this round: the whole round is the periodic section
-    have hs2 : Spec.splitRd (E1 ++ E2) = (E1 ++ E2, []) := splitRd_none _ hnoE
-    rw [hevs, hs2]
-    simp only [List.length_nil, Nat.add_zero]
-    rw [preSt_nil]
-    refine (go_nil_ext cfg reads _ _).noErr (by simp) ?_
-    -- the frames of the round are pending on connections that are in the table: there is none
-    have hreads0 : reads = [] := by
-      cases hr0 : reads with
-      | nil => rfl
-      | cons rd rest =>
-        exfalso
-        have hmem : rd ∈ reads := by rw [hr0]; simp
-        have h1 := hskip rd hmem
-        rw [hreadsDef] at hmem
-        have h2 := (List.mem_filter.mp hmem).2
-        obtain ⟨m0, hm0⟩ := Option.isSome_iff_exists.mp h2
-        have : sP.find rd.uid = some m0 := by
-          rw [← hsPe]
-          unfold preS
-          dsimp only
-          have hacc : (acceptStep cfg (envStep s r)).find rd.uid = some m0 := by
-            unfold acceptStep logAt
-            have : ¬ (20 ≥ cfg.logLevel) := by omega
-            simp only [this, if_false]
-            unfold State.find
-            rw [List.find?_append]
-            unfold State.find at hm0
-            rw [hm0]; rfl
-          split
-          · show (if r.accept then acceptStep cfg (envStep s r) else envStep s r).find rd.uid = some m0
-            split
-            · exact hacc
-            · exact hm0
-          · exact hm0
-        rw [this] at h1; cases h1
-    -- hence the writable set of the clause is the one the periodic section ran with
-    have hwP : (preAcc a r).w.filter ((preW a r).contains ·) = preW a r := by
-      have hpr : preReads a r = [] := by rw [hreads, hreads0]
-      unfold preW
-      dsimp only
-      have hpr' : r.reads.filter (fun rd => (((envA a r).mods.filter (·.alive)).map (·.uid)).contains rd.uid) = [] := hpr
-      rw [hpr']
-      simp only [List.isEmpty_nil, Bool.not_true, Bool.or_false, if_true]
-      cases hacc : r.accept with
-      | true => simp
-      | false =>
-        simp only [Bool.false_eq_true, if_false]
-        have : preAcc a r = envA a r := by unfold preAcc; simp [hacc]
-        rw [this]
-        exact List.filter_eq_self.mpr (fun x hx => List.contains_iff_mem.mpr hx)
-    rw [hwP]
-    have heT : (ticks cfg sP).out = s.out ++ (E1 ++ E2) := by rw [← hid, hE, hq0]
-    have hsimA : SimM cfg (Spec.applyDepartures ({ preAcc a r with w := preW a r } : A) (E1 ++ E2)) (ticks cfg sP) := by
-      have hn' : Nest sP (ticks cfg sP) := ticks_nest cfg sP
-      exact sim_quiet hsP tP.aopen (top_ticks ok hfuel tP).aopen hn' (ticks_J cfg jP) (E1 ++ E2) (by rw [heT, hq0])
-    have ctT : CT cfg s (ticks cfg sP) :=
-      (ct_top tP hq0).bind (fun h' => ct_ticks ok hall hfuel h') (Or.inr (noClose_of_out hq0))
-    unfold goStartU preU
-    simp only [List.isEmpty_nil, if_true]
-    generalize hXc : ({ preAcc a r with w := preW a r } : A).chk
-      ((closes (E1 ++ E2)).isEmpty || !(wfails (E1 ++ E2)).isEmpty) "C07"
-      "a connection was closed before any frame was read in this round" = Xc
-    have hXe : ErrExt ["C07"] ({ preAcc a r with w := preW a r } : A) Xc := by
-      rw [← hXc]; exact errExt_chk _ _ _ _ _ (by simp)
-    have hno : checkNoticeOrigin cfg Xc none (E1 ++ E2) = Xc := by
-      refine noticeOrigin_pre ok inv.sim r true (E1 ++ E2) ?_ Xc hXe.mods
-      show (ticks cfg (preS cfg s r)).out = _
-      rw [hsPe]; exact heT
-    rw [hno]
-    have hdep : ErrExt ["C07"] Xc (checkDeparturesAny cfg Xc (some ((preAcc a r).w ++ preW a r)) none (E1 ++ E2)) := by
-      refine errExt_any (checkDepartures_c14 cfg _ none (E1 ++ E2)
-        (dep_c14_end hsimA ctT.top.aopen (E1 ++ E2) ?_ ?_ ?_ (fun o d U hU => ?_)))
-      · rw [applyDepartures_map, applyDepartures_map]
-        show List.map _ Xc.mods = List.map _ (preAcc a r).mods
-        rw [hXe.mods]
-      · rw [(applyDepartures_core _ (E1 ++ E2)).2.2.1, hXe.w]
-      · rw [(applyDepartures_core _ (E1 ++ E2)).2.1, hXe.fail]
-      · obtain ⟨ext, oe, p⟩ := ctT.cnt o d U hU
-        have : ext = E1 ++ E2 := List.append_cancel_left (oe.symm.trans heT)
-        rw [← this]; exact p
-    show NoErr "C14" (applyDepartures (checkDeparturesAny cfg Xc (some ((preAcc a r).w ++ preW a r)) none (E1 ++ E2)) (E1 ++ E2))
-    exact noErr_applyDepartures _ (hdep.noErr (by simp) (hXe.noErr (by simp) hnAcc))
-  · -- at least one frame was read
-    have := readAll_go_c14 ok hfuel hperm hmt reads (goStart cfg (preAcc a r) (preW a r) []) sP
-      (ticks cfg (readAll cfg reads sP)) (E1 ++ E2) (reads.length + (Spec.splitRd (E1 ++ E2)).2.length + 1)
-      inv0 hwf' (by omega) q (Or.inr rfl) hE hn0
-    rw [hevs, preSt_ne a r hp2, preU_ne a r hp2, goStartU_none]
-    have hpre : (Spec.splitRd (E1 ++ E2)).1 = [] := hp1
-    rw [hpre]
-    exact this
-
-end round
-
-section hist
-variable {cfg : Cfg} (ok : CfgOK cfg) (hfuel : cfg.fuel = 0) (hperm : OrdPerm cfg) (hmt : cfg.mtClosed ≠ cfg.allTypes)
-  (hlog : 20 < cfg.logLevel)
-include ok hfuel hperm hmt hlog
-
-/-- the rounds of a history, one after the other -/
-theorem rounds_c14 : ∀ (rs : List Round) (a : A) (s : State), Inv cfg a s → RoundsWF rs → NoErr "C14" a →
-    NoErr "C14" ((List.zip rs (modelRounds cfg s rs)).foldl (fun a p => Spec.round cfg a p.1 p.2) a)
-  | [], _, _, _, _, hn => hn
-  | r :: rs, a, s, inv, hwf, hn => by
-    have hr : RoundWF r := hwf r (by simp)
-    obtain ⟨evs, hevs⟩ := step_out ok hfuel inv r hr
-    have hre : roundEvents cfg s r = evs := by
-      unfold roundEvents; rw [hevs, List.drop_left]
-    obtain ⟨inv1, _⟩ := round_ok ok hfuel hperm hmt inv r hr evs hevs
-    have h1 := round_c14 ok hfuel hperm hmt hlog inv r hr evs hevs hn
-    simp only [modelRounds, List.zip_cons_cons, List.foldl_cons, hre]
-    exact rounds_c14 rs (Spec.round cfg a r evs) (step cfg s r) inv1 (fun x hx => hwf x (by simp [hx])) h1
-
-end hist
 
 end Pyrtma.Mgr
